@@ -9,7 +9,7 @@ import numpy as np
 from harness.core import quiet
 
 
-def run_call_forms(ctx, cuqi, thorough, H):
+def prepare(ctx, cuqi, thorough, H):
     rs = np.random.RandomState(ctx.seed + 5353)
     zoo = [z for z in H.family_zoo(cuqi, rs) if z[2] <= (5 if thorough else 3)]
     forms = [("default-N", lambda D, g: D.sample(rng=g), 1),
@@ -41,7 +41,11 @@ def run_call_forms(ctx, cuqi, thorough, H):
             lines.append(f"shape {fam} 0 {dim} {N}")
             metas.append(dict(fam=fam, D=D, dim=dim, N=N, form=fname, s=s, err=err, ref=ref, eref=eref, untouched=untouched))
             hist[fname] = hist.get(fname, 0) + 1
-    outs = ctx.lean.drive(lines)
+    return lines, (metas, hist)
+
+
+def finish(ctx, cuqi, H, state, outs):
+    metas, hist = state
     for m, out in zip(metas, outs):
         fam, D, dim, N, fname = m["fam"], m["D"], m["dim"], m["N"], m["form"]
         desc = {"family": fam, "dim": dim, "N": N, "call": fname, "object": repr(D)[:80]}
@@ -67,3 +71,8 @@ def run_call_forms(ctx, cuqi, thorough, H):
         if not m["untouched"]:
             ctx.fail(f"rng:{fam}:global-state", desc, "global numpy random state untouched when rng is given", "changed")
     ctx.extra_cov["call_forms"] = hist
+
+
+def run_call_forms(ctx, cuqi, thorough, H):
+    lines, state = prepare(ctx, cuqi, thorough, H)
+    finish(ctx, cuqi, H, state, ctx.lean.drive(lines))
